@@ -107,7 +107,7 @@ func c31process(t *testing.T, r *rt.Run, c *rt.Case, k c31case, bins string) {
 				exited, code = true, cd
 				break
 			}
-			if udpPortBound(port) {
+			if tool.ownsUDPPort(port) {
 				bound = true
 				break
 			}
